@@ -160,6 +160,9 @@ func (e *specEnv) typeOfExpr(x ast.Expr) types.Type {
 		}
 	case *ast.SelectorExpr:
 		if id, ok := x.X.(*ast.Ident); ok {
+			if id.Name == "unsafe" && x.Sel.Name == "Pointer" {
+				return types.Typ[types.UnsafePointer]
+			}
 			if p := e.importedPkg(id.Name); p != nil {
 				if o := p.Scope().Lookup(x.Sel.Name); o != nil {
 					if tn, ok := o.(*types.TypeName); ok {
@@ -726,6 +729,21 @@ func (e *specEnv) call(x *ast.CallExpr, sg *SGo) Val {
 	name := ""
 	if id, ok := x.Fun.(*ast.Ident); ok {
 		name = id.Name
+	}
+	if se, ok := x.Fun.(*ast.SelectorExpr); ok {
+		// package-qualified specification symbol (ghost map, ufunc, pred) of another package
+		if id, ok := se.X.(*ast.Ident); ok {
+			if _, shadow := e.names[id.Name]; !shadow {
+				if p := e.importedPkg(id.Name); p != nil {
+					n := se.Sel.Name
+					if gm := tr.G.contracts.Ghosts[n]; gm != nil && gm.PkgPath == p.Path() {
+						name = n
+					} else if tr.G.contracts.UFuncs[p.Path()+"."+n] != nil || tr.G.contracts.Preds[p.Path()+"."+n] != nil {
+						name = n
+					}
+				}
+			}
+		}
 	}
 	arg := func(i int) Val { return e.expr(x.Args[i], sg) }
 	switch name {
